@@ -52,7 +52,7 @@ class TraceJob:
     replay(ctx, scenario_path, out_path) re-executes the inputs of the saved scenario lines."""
 
     def __init__(self, name, module, trace_path, consts, invariants=(), chunk=4000, replay=None,
-                 boundary=None, scenario_count=None, heap="3g", meta=None, attempts=3, rerun=None):
+                 boundary=None, scenario_count=None, heap="3g", meta=None, attempts=3, rerun=None, drift=False):
         self.name, self.module, self.trace_path = name, module, trace_path
         self.consts, self.invariants, self.chunk = consts, invariants, chunk
         self.replay = replay
@@ -60,6 +60,7 @@ class TraceJob:
         self.scenario_count = scenario_count
         self.heap = heap
         self.meta = meta or {}
+        self.drift = drift         # drift detector: behaviour outside the listed properties; a rejection is a NOTE, never a violation
         self.rerun = rerun         # re-runs the original harness command (used when the process died: the fatal call was never recorded)
         self.attempts = attempts   # how often a (schedule-dependent) rejection may be re-run to reproduce it
 
@@ -111,6 +112,11 @@ def run_job(ctx, job):
 
 
 def handle_rejection(ctx, job, r):
+    if job.drift:
+        msg = "spec-drift: %s no longer conforms to %s at trace line %s (not one of the listed properties)" % (job.name, job.module, r["reject_line"])
+        ctx.notes.append(msg)
+        print("NOTE " + msg, flush=True)
+        return
     if len(ctx.violations) >= 5:
         ctx.notes.append("further rejection in job %s at chunk line %s not replayed (5 violations already reported)" % (job.name, r["reject_line"]))
         return
